@@ -1,6 +1,6 @@
 """Registry of the per-property checks: which TLC models run, with which constants per tier,
 which oracles of the harness bind them to the real library, and how evidence is assembled."""
-import json, os, subprocess, sys, time
+import json, os, re, subprocess, sys, time
 import vlib
 from vlib import Infra, log
 
@@ -76,8 +76,80 @@ def c11(tier):
                  constants=dict(Rng=12, MaxN=9, Bigs=True, Forms='plain'), invariants=inv)]
 
 
+# ---------------------------------------------------------------- parser family (C02, C17, C16, C18)
+
+def parse_gen(label, props, maxtok, alphabet, timeout=1200):
+    return dict(kind='gen', module='Gen_Parse', label=label, props=props, timeout=timeout,
+                constants=dict(MaxTok=maxtok, Alphabet=alphabet), invariants=['LawDocumented', 'LawPrefix', 'LawPosInside', 'Emit'])
+
+
+def roundtrip(label, props, scope, timeout=1800):
+    return dict(kind='gen', module='Gen_RoundTrip', label=label, props=props, timeout=timeout,
+                constants=dict(Scope=scope), invariants=['RoundTrip', 'ReportedAgree', 'Emit'], check_count=False)
+
+
+def traceB_parse(n_quick, n_thorough, props):
+    def fn(pid, tier, sdir, harness, known):
+        n = n_quick if tier == 'quick' else n_thorough
+        pp, pq, npaths, npairs = vlib.extract_corpus(sdir)
+        gj = os.path.join(sdir, 'grammar.json')
+        summ, rec, gerr = vlib.run_record(sdir, harness, ['gen-parse', '-seed', str(vlib.SEED), '-n', str(n), '-corpus', pp, '-grammar', gj], props, 'recparse', pid)
+        st, rejected, nrec = vlib.validate_trace(sdir, 'Trace_Parse', rec, 'trace-parse')
+        viol, hits = [], []
+        for v in summ.get('violations') or []:
+            if v['property'] == pid:
+                k = vlib.match_known(v, known)
+                (hits if k else viol).append((k, v) if k else v)
+        if rejected:
+            byid = {}
+            for line in open(rec):
+                r = json.loads(line)
+                byid[r['id']] = r
+            for rj in rejected:
+                r = byid.get(rj['mismatch'])
+                text = ''.join(chr(c) for c in r['s'])
+                v = {'property': 'C17', 'kind': 'acceptance-differs' if (rj['model']['cls'] == 'ok') != (rj['real']['cls'] == 'ok') else 'outcome-differs',
+                     'path': text, 'document': '', 'signature': rj['model']['cls'] + '->' + rj['real']['cls'],
+                     'detail': 'jsonpath.peg + actions give %s, Parse gave %s' % (json.dumps(rj['model']), json.dumps(rj['real'])),
+                     'case': json.dumps({'fam': 'parse', 's': r['s'], 'cfg': r['cfg'],
+                                         'out': rj['model'], 'asm': []})}
+                if pid in ('C17',):
+                    k = vlib.match_known(v, known)
+                    (hits if k else viol).append((k, v) if k else v)
+        cov = {}
+        m = [l for l in gerr.splitlines() if l.startswith('GENCOV ')]
+        if m:
+            g = json.loads(m[0][7:])
+            cov = {'grammar_alternatives_taken': len(g)}
+        counters = dict(summ['counters'])
+        counters.update({'corpus_paths': npaths, 'records_validated_by_TLC': nrec, 'records_rejected_by_TLC': len(rejected)})
+        counters.update(cov)
+        return dict(tlc_runs=[{k: st[k] for k in ('label', 'cmd', 'generated', 'distinct', 'wall_s')}], cases=summ['cases'], distinct=summ['distinct_nontrivial'],
+                    counters=counters, samples=(summ.get('samples') or [])[:2], violations=viol, known_hits=hits, exhaustive=False)
+    return dict(kind='custom', fn=fn)
+
+
+def c02(tier):
+    cn = dict(kind='tlc', module='CmpNormalize', label='cmp-normalize-terminates', constants=dict(AsCoded=False),
+              invariants=['BuiltRight', 'AtMostOneSwap'], properties=['Terminates'], timeout=120, workers=1)
+    if tier == 'quick':
+        return [cn, parse_gen('soup2-full', 'C02', 2, 'full'), parse_gen('soup3-reduced', 'C02', 3, 'reduced'),
+                roundtrip('sentences-atoms', 'C02', 'atoms'), traceB_parse(6000, 200000, 'C02')]
+    return [cn, parse_gen('soup3-full', 'C02', 3, 'full', 3600), parse_gen('soup4-reduced', 'C02', 4, 'reduced', 7200),
+            roundtrip('sentences-atoms', 'C02', 'atoms'), roundtrip('sentences-steps', 'C02', 'steps', 7200), traceB_parse(6000, 200000, 'C02')]
+
+
+def c17(tier):
+    if tier == 'quick':
+        return [parse_gen('soup2-full', 'C17', 2, 'full'), parse_gen('soup3-reduced', 'C17', 3, 'reduced'),
+                traceB_parse(8000, 300000, 'C17')]
+    return [parse_gen('soup3-full', 'C17', 3, 'full', 3600), parse_gen('soup4-reduced', 'C17', 4, 'reduced', 7200),
+            roundtrip('sentences-atoms', 'C17', 'atoms'), roundtrip('sentences-steps', 'C17', 'steps', 7200), traceB_parse(8000, 300000, 'C17')]
+
+
 CHECKS = {
     'C01': dict(stages=c01, level='model_checking'),
+    'C02': dict(stages=c02, level='model_checking'),
     'C03': dict(stages=simple_sel('C03', ['LawFailsIffEmpty']), level='model_checking'),
     'C04': dict(stages=simple_sel('C04'), level='model_checking'),
     'C08': dict(stages=simple_sel('C08', ['LawCompose']), level='model_checking'),
@@ -86,6 +158,7 @@ CHECKS = {
     'C13': dict(stages=simple_sel('C13', ['LawLocs']), level='model_checking'),
     'C14': dict(stages=c14, level='model_checking'),
     'C15': dict(stages=simple_sel('C15'), level='model_checking'),
+    'C17': dict(stages=c17, level='model_checking'),
     'C18': dict(stages=c18, level='model_checking'),
 }
 
@@ -123,7 +196,7 @@ def run(pid, tier, sdir, t0):
                     known_hits.append((k, v))
                 else:
                     viol.append(v)
-            if ts['distinct'] and not st.get('simulate') and summ['cases'] not in (ts['distinct'], ts['distinct'] - ts['init']) and not st.get('max_cases'):
+            if st.get('check_count', True) and ts['distinct'] and not st.get('simulate') and summ['cases'] not in (ts['distinct'], ts['distinct'] - ts['init']) and not st.get('max_cases'):
                 raise Infra('replayer saw %d cases but TLC found %d distinct states (%s)' % (summ['cases'], ts['distinct'], st['label']))
         elif st['kind'] == 'tlc':
             log('[%s/%s] stage %s: TLC %s (model only)' % (pid, tier, st['label'], st['module']))
